@@ -33,7 +33,8 @@ def main():
             seeds = flags[i + 1].split(',')
     args = [a for a in args if a not in (tier,) and a != ','.join(seeds)]
     root = os.path.join(VERIF, 'seeded')
-    names = args or sorted(os.listdir(root))
+    names = args or sorted(n for n in os.listdir(root)
+                           if os.path.isdir(os.path.join(root, n)))
     props = sorted(
         json.loads(l)['id'] for l in open(os.path.join(VERIF,
                                                        'properties.jsonl')))
@@ -41,6 +42,8 @@ def main():
     bak = tempfile.mkdtemp(prefix='evbak_')
     shutil.copytree(ev, bak, dirs_exist_ok=True)
     results = dict()
+    rp = os.path.join(root, 'RESULTS.json')
+    saved = json.load(open(rp)) if os.path.exists(rp) else dict()
     try:
         for name in names:
             d = os.path.join(root, name)
@@ -84,6 +87,8 @@ def main():
                             verdict = {0: 'silent', 1: 'also-fires'}.get(
                                 r.returncode, f'exit {r.returncode}')
                         results[(name, pid, seed)] = verdict
+                        saved.setdefault(name, dict())[f'{pid}@{tier}:{seed}'] \
+                            = dict(verdict=verdict, keys=keys[:6])
                         print(f'{name:28s} {pid} seed={seed} {verdict:10s} '
                               + '; '.join(keys)[:300], flush=True)
                         if r.returncode not in (0, 1):
@@ -93,6 +98,7 @@ def main():
     finally:
         shutil.copytree(bak, ev, dirs_exist_ok=True)
         shutil.rmtree(bak)
+    json.dump(saved, open(rp, 'w'), indent=1, sort_keys=True)
     missed = [k for k, v in results.items() if v == 'MISSED']
     print(f'{len(results)} runs; missed: {missed}')
     return 1 if missed else 0
